@@ -20,6 +20,11 @@ claims = {
          "before any return after toolexecCmd and no os.Exit is reachable from mainErr; and that every path to a -debugdir write passes an ownership edge. "
          "Decides these clauses, not the behaviour of spawned tools.",
          "filesystem-effect enumeration with path-root provenance (interprocedural backward slice), dominance and path enumeration on go/ssa", "4 C19"),
+ "C20": ("Decides by table and sibling comparison: garble's booleanFlags against every flag.FlagSet registration of the pinned toolchain's cmd/go/internal/{work,test,run,base} "
+         "(type-checked from GOROOT source; 68 flags), forwardBuildFlags against the build flags registered by the Add*Flags helpers, the two splitters against each other "
+         "(table, '=' rule, spelling normalisation), rxGarbleFlag against garble's own FlagSet, and on SSA that the go command ends with the user's flags and packages in order and unmodified. "
+         "Decides these agreements, not the acceptance of any concrete command line.",
+         "table-vs-table and site-vs-site agreement over go/types + go/ssa, including the toolchain's own cmd/go source", "4 C20"),
 }
 
 checks = []
